@@ -250,3 +250,11 @@ def strip_casts(e):
     while isinstance(e, tuple) and e and e[0] == "cast":
         e = e[2]
     return e
+
+
+def is_iter_next(e):
+    return isinstance(e, tuple) and e and e[0] == "call" and e[1].endswith("::next") and "Iterator" in e[1]
+
+
+def mentions_iter_next(e):
+    return any(is_iter_next(x) for x in walk(e))
